@@ -914,4 +914,40 @@ theorem build_equiv_anchors (G : Geo α F P) (h : Heap α) (ref tgt : Nat) (E : 
           · simp at hh
           · exact (hkeys a).mp hh
 
+/-- `call` refines a pure function (statement and comments: `C04.call_refines_pure`) -/
+theorem call_refines_pure_core (G : Geo α F P) (h : Heap α) (E : EMap F P) (m : Nat) (av : MolView)
+    (l0 : List Int) (hav : molView h m = some av) (hl0 : residsOf h av.parts = some l0)
+    (hargold : ∀ g ∈ av.parts.flatten, g < h.size) (hcov : Covered G h m E.equiv)
+    (hok : (call G h E (some (.mol m))).err = none) :
+    ∃ nm nv tv tcs ttcs poss vals,
+      (call G h E (some (.mol m))).ret = some nm ∧
+      molView h E.tgt = some tv ∧ readGros h tv.gros = some tcs ∧ readTops h tv.tops = some ttcs ∧
+      ttcs.map (fun tc => purePos G E.equiv E.tcoords (pureTable G h m) tc.index) = poss.map some ∧
+      perAtom l0 (eachOf 0 tv.parts) = some vals ∧
+      molView (call G h E (some (.mol m))).heap nm = some nv ∧ nv.tops = tv.tops ∧
+      (∀ g ∈ nv.gros, h.size ≤ g) ∧ poss.length = tcs.length ∧ vals.length = tcs.length ∧
+      readGros (call G h E (some (.mol m))).heap nv.gros =
+        some (List.zipWith (fun (n : Int) (g : AtomGroC α) => ({ g with resid := n } : AtomGroC α)) vals
+          (List.zipWith (fun (c : AtomGroC α) (p : V3 α) => ({ c with pos := p } : AtomGroC α)) tcs poss)) := by
+  have hE : ({ E with table := E.table } : EMap F P) = E := by cases E; rfl
+  obtain ⟨i1, i2, i3⟩ := call_table_irrelevant G h E (some (.mol m)) E.table []
+    (fun m' hm' => by injection hm' with hm'; injection hm' with hm'; subst hm'; exact hcov)
+  rw [hE] at i1 i2 i3
+  rw [i1, i2]
+  rw [i3] at hok
+  simp only [call] at hok ⊢
+  cases e1 : molEq h E.ref m with
+  | error e => simp [e1] at hok
+  | ok b =>
+    cases b with
+    | false => simp [e1] at hok
+    | true =>
+      simp only [e1] at hok ⊢
+      have hpt : pureTable G h m = (calcRefs G h m []).1 := rfl
+      rcases e2 : calcRefs G h m [] with ⟨tb, _ | er⟩
+      · simp only [e2] at hok ⊢
+        rw [hpt, e2]
+        exact finishCall_result G h { E with table := tb } m av l0 hav hl0 hargold hok
+      · simp [e2] at hok
+
 end GMHeap
